@@ -311,18 +311,15 @@ func (x *Exec) tensorNew(fr *Frame, i *ssa.Call, opts Val) Val {
 	bLen = x.define("new_blen", SInt, bLen)
 	total := x.define("new_total", SInt, sx("prod", sel(intH, dBase), dOff, dLen))
 	nilSlice := x.define("new_nilbacking", SBool, eq(bBase, "0"))
-	dimsPos := fmt.Sprintf("(forall ((i Int)) (=> (and (<= 0 i) (< i %s)) (>= (select (select %s %s) (+ %s i)) 1)))", dLen, intH, dBase, dOff)
+	dimsPos := fmt.Sprintf("(forall ((i Int)) (=> (and (<= 0 i) (< i %s)) (>= (select (select %s %s) (+ %s i)) 0)))", dLen, intH, dBase, dOff)
 
 	x.oblige(fr, "nopanic", "tensor.New-backing-not-slice", x.contractTags(fr), implies(hasBack, and(not(eq(bTag, "0")), or(isSliceTag...))), pc,
 		"tensor.New panics: WithBacking argument is nil or not a slice", "")
-	x.oblige(fr, "nopanic", "tensor.New-dim-not-positive", x.contractTags(fr), implies(hasShape, dimsPos), pc,
-		"tensor.New panics: a dimension is negative or zero (gorgonia cannot build zero-size tensors)", "")
+	x.oblige(fr, "nopanic", "tensor.New-negative-dim", x.contractTags(fr), implies(hasShape, dimsPos), pc,
+		"tensor.New panics: negative dimension", "")
 	x.oblige(fr, "nopanic", "tensor.New-count", x.contractTags(fr),
-		implies(and(hasBack, hasShape), or(nilSlice, ite(sx(">", dLen, "0"), eq(bLen, total), sx(">=", bLen, "1")))), pc,
+		implies(and(hasBack, hasShape, sx(">", dLen, "0")), or(nilSlice, eq(bLen, total))), pc,
 		"tensor.New panics: len(backing) != product of dims", "")
-	x.oblige(fr, "nopanic", "tensor.New-empty-backing", x.contractTags(fr),
-		implies(and(hasBack, not(hasShape)), sx(">=", bLen, "1")), pc,
-		"tensor.New panics: WithBacking of an empty slice without a shape", "")
 	x.oblige(fr, "nopanic", "tensor.New-no-type", x.contractTags(fr), or(hasBack, hasOf, hasScal), pc,
 		"tensor.New panics: neither a backing, an element type nor a scalar is given", "")
 
